@@ -318,6 +318,7 @@ package web
 //@   ensures base == 10 && bitSize == 64 ==> (forall n int :: 0 <= n && n <= 18446744073709551615 && s == itoa(n) ==> ret0 == n && ret1 == nil)
 //@ unit web.encodeSince
 //@   prop C02
+//@   safe conv
 //@   ensures [C02:a-token-is-the-valid-base64-text-of-the-decimal-position] b64valid(result) && b64text(result) == itoa(since) && result != ""
 //@ unit web.decodeSince
 //@   prop C02
@@ -354,6 +355,8 @@ package web
 //@   ghost sinceG int = 0
 //@   ghost limitG int = 0
 //@   ghost tokG int = 0
+//@   ghost pendingG bool = false
+//@   ghost itemG []byte
 //@   requires handler != nil && handler.datasetManager != nil
 //@   dyncall preStream pure
 //@   at call ParseInt#1
@@ -378,6 +381,19 @@ package web
 //@     assert [C02:reverse-feed-starts-at-the-decoded-position] $arg1 == sinceG
 //@   at call NextOffset#1
 //@     ghost tokG := $result
+// the reverse feed: the token is the iterator's position, so every entry the iterator moved past must have been written
+// to the response before the token is taken (an entry fetched but not written would be skipped by the next page)
+//@   at call Next#1
+//@     ghost pendingG := $result
+//@   at call Item#1
+//@     ghost itemG := $result
+//@   at call Write#8 before
+//@     assert [C02:the-entry-the-reverse-iterator-handed-out-is-the-one-written] $arg1 == itemG && pendingG
+//@     ghost pendingG := false
+//@   at call NextOffset#1 before
+//@     assert [C02:every-entry-the-reverse-iterator-moved-past-was-written-before-the-token-is-taken] !pendingG
+//@   loop 1
+//@     invariant !pendingG
 //@   at call encodeSince#1 before
 //@     assert [C02:reverse-token-is-the-iterators-next-offset] $arg0 == tokG
 
